@@ -361,6 +361,21 @@ def check_textdoc(ctx, payloads, in_script):
     return True
 
 
+def check_document_attr(ctx, p):
+    """HTML() given as an attribute argument of a DOCUMENT is written as it is, like on any element."""
+    wit = {"document_attr_payload": p}
+    ctx.count("oracle.document_attr")
+    for how, doc in (("fragment", ht.HTMLDocument(ht.div("b"), lang=ht.HTML(p), title="t")), ("user body", ht.HTMLDocument(ht.tags.body("b"), **{"data-h": ht.HTML(p)})),
+                     ("user html", ht.HTMLDocument(ht.tags.html(ht.tags.body("b"), lang="xx"), lang=ht.HTML(p)))):
+        out = doc.render()["html"]
+        again = doc.render()["html"]
+        head = out[:out.index("<head")]     # everything up to the <head> element: the doctype and the <html ...> tag
+        if p and ('="%s"' % p) not in head or again != out:
+            ctx.violation("trusted-payload-not-verbatim", "HTML() given as a document attribute (%s) is not written verbatim in the <html> tag" % how, dict(wit, how=how, output=head[:400]))
+            return False
+    return True
+
+
 def check_list_arithmetic(ctx, p):
     """Trusted markup that reaches a child list through + / += / extend with the HTML() object itself as the operand."""
     wit = {"list_arithmetic_payload": p}
@@ -445,6 +460,8 @@ def check_json_pipeline(ctx, payloads):
 
 
 def replay(ctx, w):
+    if "document_attr_payload" in w:
+        return check_document_attr(ctx, w["document_attr_payload"])
     if "list_arithmetic_payload" in w:
         return check_list_arithmetic(ctx, w["list_arithmetic_payload"])
     if "head_twins" in w:
@@ -547,6 +564,8 @@ def _run(ctx):
         if rng.random() < 0.5:
             ctx.guard(check_json_pipeline, ctx, ps, witness={"json_pipeline_payloads": ps})
         ctx.guard(check_list_arithmetic, ctx, ps[0], witness={"list_arithmetic_payload": ps[0]})
+        if '"' not in ps[0] and "\n" not in ps[0] and "\r" not in ps[0]:
+            ctx.guard(check_document_attr, ctx, ps[0], witness={"document_attr_payload": ps[0]})
         if rng.random() < 0.5 and "<" in ps[0] and "\r" not in ps[0]:
             ctx.guard(check_head_twins, ctx, ps[0], witness={"head_twins": ps[0]})
         ctx.case(("textdoc", ps, insc), nontrivial=any("\\" in p or set(p) & set("&<>") for p in ps))
